@@ -100,7 +100,7 @@ def r1(idx, rep):
               f"{ci.file}::CsvDataReader.__init__ keeps the dialect", f"{st.get('_delimiter')} / {st.get('_quotechar')}", K.where(init, init.node))
     nx = ci.methods["next"]
     cr = [c for c in walk_no_nested(nx.node) if isinstance(c, ast.Call) and call_name(c) == "reader"]
-    kw = K.kw_text(nx, cr[0]) if len(cr) == 1 else {}
+    kw = K.kw_values(idx, nx, cr[0]) if len(cr) == 1 else {}
     rep.check(kw == {"delimiter": "self._delimiter", "quotechar": "self._quotechar"}, "R1", f"{ci.file}::CsvDataReader.next csv.reader dialect", f"{kw}", K.where(nx, nx.node))
     # csv.reader reads the opened file itself (no filtering/rewriting layer between the bytes and the parser)
     withs = [w for w in walk_no_nested(nx.node) if isinstance(w, ast.With)]
@@ -116,7 +116,7 @@ def r1(idx, rep):
     # CsvPaths.csvpath() hands its dialect to members (shared with C08.R2)
     fc = idx.method("CsvPaths", "csvpath")
     ctor = [n for n in walk_no_nested(fc.node) if isinstance(n, ast.Call) and call_name(n) == "CsvPath"]
-    kw = K.kw_text(fc, ctor[0]) if len(ctor) == 1 else {}
+    kw = K.kw_values(idx, fc, ctor[0]) if len(ctor) == 1 else {}
     rep.check(kw.get("delimiter") == "self.delimiter" and kw.get("quotechar") == "self.quotechar", "R1", f"{fc.file}::CsvPaths.csvpath member dialect", f"{kw}", K.where(fc, fc.node))
 
 
